@@ -44,7 +44,7 @@ def apply(scratch, m):
 
 def run_one(m, args):
     scratch = tempfile.mkdtemp(prefix="vfmut-{}-".format(m["id"]))
-    res = dict(id=m["id"], props={}, tests=None)
+    res = dict(id=m["id"], props={}, tests=None, benign=m.get("benign", False))
     try:
         shutil.copytree("/repo/tradingenv", os.path.join(scratch, "tradingenv"))
         apply(scratch, m)
@@ -93,13 +93,15 @@ def main():
     with concurrent.futures.ThreadPoolExecutor(args.jobs) as ex:
         for r in ex.map(lambda m: run_one(m, args), ms):
             results.append(r)
-            status = " ".join("{}={}".format(p, "CAUGHT" if v["exit"] == 1 else "MISSED(exit {})".format(v["exit"]))
+            want = 0 if r.get("benign") else 1
+            status = " ".join("{}={}".format(p, ("QUIET" if want == 0 else "CAUGHT") if v["exit"] == want else
+                                             ("FALSE-ALARM" if want == 0 else "MISSED") + "(exit {})".format(v["exit"]))
                               for p, v in r["props"].items())
             print("{:34s} tests={} {} {}".format(r["id"], r["tests"], status, r.get("error", "")), flush=True)
             for p, v in r["props"].items():
-                if v["exit"] != 1:
+                if v["exit"] != want:
                     print("      ", p, v["first"])
-    missed = [r["id"] for r in results if any(v["exit"] != 1 for v in r["props"].values()) or "error" in r]
+    missed = [r["id"] for r in results if any(v["exit"] != (0 if r.get("benign") else 1) for v in r["props"].values()) or "error" in r]
     print("mutants: {}  fully caught: {}  missed: {}".format(len(results), len(results) - len(missed), missed))
     if args.out:
         with open(args.out, "w") as f:
